@@ -71,6 +71,8 @@ InfoOnce == TRUE
 InfoCopy == TRUE
 InfoInit == [buf |-> 0, cl |-> FALSE, sent |-> FALSE, arr |-> 0, raced |-> FALSE]
 
+\* (a scenario of the replay may use a connection whose Close closes it and reports an error all the same, as TLS does)
+CloseFails == "closeFails" \in DOMAIN cfg /\ cfg.closeFails
 Roles == {"S", "R", "W"}
 Tok(k, v) == [call |-> call, k |-> k, v |-> v]
 CtxDead == gctx = "dead"
@@ -362,7 +364,7 @@ W_Act ==
             \* what the watcher returns: the context's error joined with cancelQuery's (write and Close errors)
             /\ closed' = TRUE /\ connClosed' = TRUE
             /\ Ret("W", IF CtxDead THEN "ctx" ELSE IF closed THEN "closed"
-                         ELSE IF connClosed \/ wbroken \/ stalled \/ Breaks(1) THEN "err" ELSE "nil")
+                         ELSE IF connClosed \/ wbroken \/ stalled \/ Breaks(1) \/ CloseFails THEN "err" ELSE "nil")
        ELSE /\ Ret("W", "nil") /\ UNCHANGED <<c2s, closed, connClosed, wbroken>>
   /\ UNCHANGED <<cfg, spc, rpc, once, pend, s2c, sidx, caller, gctx, firstErr, gotExc, done, info, ver, rows, tail,
                  round, cbS, cbR, seenRows, cblog, call, phase, cancelAt, cancelClean>>
